@@ -86,7 +86,7 @@ def run(ctx):
         if not r.ok:
             raise vlib.Inconclusive("model finding in UdpNat.tla (liveness): %s" % r.violated)
     # 2. virtual time
-    vb = U.gen(ctx, "Gen_UdpNatVirt.cfg", 150 if q else 2000, seed=ctx.seed + 31)
+    vb = U.gen(ctx, "Gen_UdpNatVirt.cfg", 120 if q else 2000, seed=ctx.seed + 31)
     rows = virt(ctx, vb)
     if rows is not None:
         ctx.cov["evaluations"] += len(vb)
@@ -94,7 +94,7 @@ def run(ctx):
         ctx.sample({"virtual_time_behaviour": vb[0]})
         ctx.sample({"virtual_time_trace_head": rows[:12]})
     # 3. real sockets, natTimeout 300 ms
-    fams = U.real_families(ctx, "c14real", 45 if q else 350, 25 if q else 150, U.PROPS["C14"] + ["SrcStable", "SrcPrivate", "OnePerClient"],
+    fams = U.real_families(ctx, "c14real", 36 if q else 350, 20 if q else 150, U.PROPS["C14"] + ["SrcStable", "SrcPrivate", "OnePerClient"],
                            seed_off=977, want={"returned", "leak"})
     rb = []
     ctx.cov["real_expiries_observed"] = 0
